@@ -29,7 +29,7 @@ def bilinear(op: Any, opt: Any, rng: Any) -> None:
 
 
 def case(rng: Any, ctx: Ctx, index: int) -> None:
-    s, op = rand_operator(rng, ctx, lazy_inverse=False)
+    s, op = rand_operator(rng, ctx, lazy_inverse=False, index=index)
     if 'InverseOperator' in dense.class_names(op):
         return
     opt = op.T          # monitored (and every nested transpose it triggers)
